@@ -497,18 +497,22 @@ static void run_frames_job(int job) {
 // ================================================================== part 2: handshake histories
 static const char* PSK = "correct horse battery staple";
 static const char* SSID = "verif-C09";
-struct HsCfg { bool ccmp; int apreg; bool qos; int order; bool big; };   // apreg 0 = passphrase+SSID only, 1 = +BSSID
-struct Station { uint8_t mac[6]; uint8_t snonce[32]; Bytes ptk; Bytes plain; };
+// apreg 0 = passphrase+SSID only, 1 = +BSSID; gen2 bit k = station k has a second handshake generation (fresh nonces);
+// bret = station B's retransmitted copies are events; extra = foreign beacon and SSID-less beacon are events
+struct HsCfg { bool ccmp; int apreg; bool qos; int order; int gen2; bool bret, extra; };
+struct Station { uint8_t mac[6]; uint8_t snonce[2][32]; Bytes ptk[2]; Bytes plain; int gens; };
+struct Probe { Bytes frame; int sta, gen; bool from_ds; };      // gen 0 = protected under a PTK from a wrong passphrase
 struct HsWorld {
     HsCfg cfg;
-    uint8_t bssid[6], peer[6], anonce[32];
+    uint8_t bssid[6], peer[6], anonce[2][32];
     Station st[2];
     Bytes foreign_ptk;
     std::vector<std::string> names;
     std::vector<Bytes> frames;          // one per event
-    std::vector<int> ev_station, ev_msg; // station (-1 none) and message number 1..4 (0 none; 5 = beacon; 6 = foreign beacon; 7 = data; 8 = beacon without SSID)
+    // station (-1 none), message number 1..4 (5 = beacon; 6 = foreign beacon; 7 = data; 8 = beacon without SSID), generation 1/2
+    std::vector<int> ev_station, ev_msg, ev_gen;
     Crypto::WPA2Decrypter base;
-    std::vector<Bytes> probes;          // data frames: st0 to-DS, st1 to-DS, st0 from-DS, st1 from-DS, one under a foreign PTK
+    std::vector<Probe> probes;
 };
 static HsWorld* W = 0;
 static const Bytes& pmk() { static Bytes p = c09::pbkdf2_sha1(PSK, SSID, 4096, 32); return p; }
@@ -563,7 +567,7 @@ static int g_cb_hs = 0, g_cb_ap = 0;
 static HsWorld* make_world(const HsCfg& cfg) {
     HsWorld* w = new HsWorld();
     w->cfg = cfg;
-    // order 0: S1 < BSSID < S2, ANonce between the SNonces; order 1: mirrored
+    // order 0: A < BSSID < B; order 1: mirrored
     const uint8_t lo[6] = {0x00, 0x0d, 0x93, 0x82, 0x36, 0x3a}, mid[6] = {0x00, 0x14, 0x6c, 0x7e, 0x40, 0x80}, hi[6] = {0xf4, 0xec, 0x38, 0xfe, 0x4d, 0x81};
     memcpy(w->bssid, mid, 6);
     memcpy(w->st[0].mac, cfg.order ? hi : lo, 6);
@@ -571,10 +575,17 @@ static HsWorld* make_world(const HsCfg& cfg) {
     const uint8_t peer[6] = {0x00, 0x21, 0x6a, 0x10, 0x20, 0x30};
     memcpy(w->peer, peer, 6);
     uint32_t s = 0x5EED;
-    for (int i = 0; i < 32; ++i) { w->anonce[i] = (uint8_t)lcg(s); w->st[0].snonce[i] = (uint8_t)lcg(s); w->st[1].snonce[i] = (uint8_t)lcg(s); }
-    w->anonce[0] = 0x80; w->st[0].snonce[0] = cfg.order ? 0x10 : 0xf0; w->st[1].snonce[0] = cfg.order ? 0xf0 : 0x10;
-    // equal first octets on one side: the comparison has to look past them
-    w->st[1].snonce[0] = 0x80; w->st[1].snonce[1] = cfg.order ? 0xff : 0x00; w->anonce[1] = 0x7f;
+    for (int i = 0; i < 32; ++i) { w->anonce[0][i] = (uint8_t)lcg(s); w->st[0].snonce[0][i] = (uint8_t)lcg(s); w->st[1].snonce[0][i] = (uint8_t)lcg(s); }
+    // generation 1: SNonce_A and the ANonce differ in the first octet (order per configuration); SNonce_B shares its first octet
+    // with the ANonce, the comparison has to look past it
+    w->anonce[0][0] = 0x80; w->anonce[0][1] = 0x7f;
+    w->st[0].snonce[0][0] = cfg.order ? 0x10 : 0xf0;
+    w->st[1].snonce[0][0] = 0x80; w->st[1].snonce[0][1] = cfg.order ? 0xff : 0x00;
+    // generation 2: fresh nonces, the ANonce/SNonce order of each station is the opposite of its generation 1
+    for (int i = 0; i < 32; ++i) { w->anonce[1][i] = (uint8_t)lcg(s); w->st[0].snonce[1][i] = (uint8_t)lcg(s); w->st[1].snonce[1][i] = (uint8_t)lcg(s); }
+    w->anonce[1][0] = 0x80; w->anonce[1][1] = 0x7f;
+    w->st[0].snonce[1][0] = cfg.order ? 0xf0 : 0x10;
+    w->st[1].snonce[1][0] = 0x80; w->st[1].snonce[1][1] = cfg.order ? 0x00 : 0xff;
     int ver = cfg.ccmp ? 2 : 1;
     uint16_t keylen = cfg.ccmp ? 16 : 32;
     const uint8_t rsnie[] = {0x30, 0x14, 0x01, 0x00, 0x00, 0x0f, 0xac, 0x04, 0x01, 0x00, 0x00, 0x0f, 0xac, 0x04, 0x01, 0x00, 0x00, 0x0f, 0xac, 0x02, 0x00, 0x00};
@@ -583,44 +594,52 @@ static HsWorld* make_world(const HsCfg& cfg) {
     const uint8_t snap_eapol[8] = {0xaa, 0xaa, 0x03, 0x00, 0x00, 0x00, 0x88, 0x8e};
     for (int k = 0; k < 2; ++k) {
         Station& st = w->st[k];
-        st.ptk = c09::ptk512(pmk(), w->bssid, st.mac, w->anonce, st.snonce);
+        st.gens = (cfg.gen2 >> k & 1) ? 2 : 1;
         st.plain = plaintext(28 + 5 * k, k);
-        int copies = (k == 0 || cfg.big) ? 2 : 1;
-        for (int copy = 0; copy < copies; ++copy) {
-            uint64_t bump = copy ? 4 : 0;
-            Bytes m[4];
-            m[0] = eapol_key(ver, uint16_t(0x0088 | ver), keylen, 1 + bump, w->anonce, Bytes(), 0);
-            m[1] = eapol_key(ver, uint16_t(0x0108 | ver), keylen, 1 + bump, st.snonce, ie, &st.ptk[0]);
-            m[2] = eapol_key(ver, uint16_t(0x13c8 | ver), keylen, 2 + bump, w->anonce, wrapped, &st.ptk[0]);
-            m[3] = eapol_key(ver, uint16_t(0x0308 | ver), keylen, 2 + bump, 0, Bytes(), &st.ptk[0]);
-            for (int i = 0; i < 4; ++i) {
-                Bytes pl(snap_eapol, snap_eapol + 8);
-                pl.insert(pl.end(), m[i].begin(), m[i].end());
-                bool to_ds = i == 1 || i == 3;
-                w->frames.push_back(data_frame(to_ds ? w->bssid : st.mac, to_ds ? st.mac : w->bssid, w->bssid, to_ds, cfg.qos, pl, false));
-                w->names.push_back(std::string(copy ? "r" : "m") + str(i + 1) + (k ? "b" : "a"));
-                w->ev_station.push_back(k); w->ev_msg.push_back(i + 1);
+        for (int g = 0; g < st.gens; ++g) {
+            st.ptk[g] = c09::ptk512(pmk(), w->bssid, st.mac, w->anonce[g], st.snonce[g]);
+            // generation 1: the original messages and (station A always, B on request) retransmitted copies with the replay
+            // counter bumped and the MIC recomputed; generation 2: fresh nonces, replay counter continuing
+            int copies = g == 0 && (k == 0 || cfg.bret) ? 2 : 1;
+            for (int copy = 0; copy < copies; ++copy) {
+                uint64_t rc = (g ? 9 : 1) + (copy ? 4 : 0);
+                Bytes m[4];
+                m[0] = eapol_key(ver, uint16_t(0x0088 | ver), keylen, rc, w->anonce[g], Bytes(), 0);
+                m[1] = eapol_key(ver, uint16_t(0x0108 | ver), keylen, rc, st.snonce[g], ie, &st.ptk[g][0]);
+                m[2] = eapol_key(ver, uint16_t(0x13c8 | ver), keylen, rc + 1, w->anonce[g], wrapped, &st.ptk[g][0]);
+                m[3] = eapol_key(ver, uint16_t(0x0308 | ver), keylen, rc + 1, 0, Bytes(), &st.ptk[g][0]);
+                for (int i = 0; i < 4; ++i) {
+                    Bytes pl(snap_eapol, snap_eapol + 8);
+                    pl.insert(pl.end(), m[i].begin(), m[i].end());
+                    bool to_ds = i == 1 || i == 3;
+                    w->frames.push_back(data_frame(to_ds ? w->bssid : st.mac, to_ds ? st.mac : w->bssid, w->bssid, to_ds, cfg.qos, pl, false));
+                    w->names.push_back(std::string(g ? "n" : copy ? "r" : "m") + str(i + 1) + (k ? "b" : "a"));
+                    w->ev_station.push_back(k); w->ev_msg.push_back(i + 1); w->ev_gen.push_back(g + 1);
+                }
             }
         }
     }
-    w->frames.push_back(beacon_frame(w->bssid, SSID, true)); w->names.push_back("beacon"); w->ev_station.push_back(-1); w->ev_msg.push_back(5);
-    for (int k = 0; k < 2; ++k) {
-        w->frames.push_back(protect(*w, k, true, w->st[k].ptk, 7 + k));
-        w->names.push_back(k ? "datab" : "dataa"); w->ev_station.push_back(k); w->ev_msg.push_back(7);
-    }
-    if (cfg.big) {
+    auto add_event = [&](const Bytes& f, const std::string& n, int sta, int msg, int gen) {
+        w->frames.push_back(f); w->names.push_back(n); w->ev_station.push_back(sta); w->ev_msg.push_back(msg); w->ev_gen.push_back(gen);
+    };
+    add_event(beacon_frame(w->bssid, SSID, true), "beacon", -1, 5, 0);
+    for (int k = 0; k < 2; ++k)
+        for (int g = 0; g < w->st[k].gens; ++g)
+            add_event(protect(*w, k, true, w->st[k].ptk[g], 7 + k + 16 * g), std::string("data") + (g ? "2" : "") + (k ? "b" : "a"), k, 7, g + 1);
+    if (cfg.extra) {
         const uint8_t foreign[6] = {0x00, 0x14, 0x6c, 0x7e, 0x40, 0x81};
-        w->frames.push_back(beacon_frame(foreign, "other-net", true)); w->names.push_back("beaconx"); w->ev_station.push_back(-1); w->ev_msg.push_back(6);
-        w->frames.push_back(beacon_frame(w->bssid, SSID, false)); w->names.push_back("beacon0"); w->ev_station.push_back(-1); w->ev_msg.push_back(8);
+        add_event(beacon_frame(foreign, "other-net", true), "beaconx", -1, 6, 0);
+        add_event(beacon_frame(w->bssid, SSID, false), "beacon0", -1, 8, 0);
     }
-    // probes
+    // probes: every station x generation x direction under the reference PTK, and one frame of A under a PTK from a wrong passphrase
     Bytes wrong_pmk = c09::pbkdf2_sha1("not the passphrase", SSID, 4096, 32);
-    w->foreign_ptk = c09::ptk512(wrong_pmk, w->bssid, w->st[0].mac, w->anonce, w->st[0].snonce);
-    w->probes.push_back(protect(*w, 0, true, w->st[0].ptk, 0x21));
-    w->probes.push_back(protect(*w, 1, true, w->st[1].ptk, 0x22));
-    w->probes.push_back(protect(*w, 0, false, w->st[0].ptk, 0x23));
-    w->probes.push_back(protect(*w, 1, false, w->st[1].ptk, 0x24));
-    w->probes.push_back(protect(*w, 0, true, w->foreign_ptk, 0x25));
+    w->foreign_ptk = c09::ptk512(wrong_pmk, w->bssid, w->st[0].mac, w->anonce[0], w->st[0].snonce[0]);
+    uint64_t pn = 0x21;
+    for (int k = 0; k < 2; ++k)
+        for (int g = 0; g < w->st[k].gens; ++g)
+            for (int from = 0; from < 2; ++from)
+                w->probes.push_back(Probe{protect(*w, k, !from, w->st[k].ptk[g], pn++), k, g + 1, from != 0});
+    w->probes.push_back(Probe{protect(*w, 0, true, w->foreign_ptk, pn++), 0, 0, false});
     if (cfg.apreg == 0) w->base.add_ap_data(PSK, SSID);
     else w->base.add_ap_data(PSK, SSID, hw(w->bssid));
     w->base.handshake_captured_callback([](const std::string&, const HWAddress<6>&, const HWAddress<6>&) { ++g_cb_hs; });
@@ -628,9 +647,31 @@ static HsWorld* make_world(const HsCfg& cfg) {
     return w;
 }
 
-struct StaModel { int last; bool bad, expect; };
+// Model.  Per station: the current handshake run (generation, last message number, spoilt flag) and which generation's PTK a
+// conforming decrypter must hold: 0 = none required, 1 / 2 = that generation (the most recently COMPLETED valid handshake),
+// 3 = undetermined (messages of different generations were mixed in an invalid order; nothing positive is required until a
+// later run completes cleanly).
+//  * message 1 starts a new run when there is none, when the current run is complete, or when it belongs to the other generation
+//    (an unfinished handshake may be abandoned for a new one);
+//  * inside a run the message numbers must be non-decreasing without gaps (duplicates allowed); anything else spoils the run;
+//  * a message >= 2 of the other generation spoils the run;
+//  * message 4 completing an unspoilt run while the AP is known makes that generation the required one;
+//  * when a run is spoilt and a generation other than the required one is involved, the requirement becomes undetermined.
+struct StaModel { int run_gen, last; bool bad; int expect; };
 struct HsModel { StaModel st[2]; bool ap_known; };
 struct HS { Crypto::WPA2Decrypter d; HsModel m; std::string obs; };
+
+static void model_taint(StaModel& sm, int gen) { if (gen != 0 && sm.expect != 0 && sm.expect != gen) sm.expect = 3; }
+static void model_message(StaModel& sm, int g, int k, bool ap_known) {
+    if (k == 1 && (sm.run_gen == 0 || g != sm.run_gen || sm.last == 4)) { sm.run_gen = g; sm.last = 1; sm.bad = false; return; }
+    if (g != sm.run_gen) { sm.bad = true; model_taint(sm, g); model_taint(sm, sm.run_gen); return; }
+    if (sm.bad) return;
+    if (k == sm.last || k == sm.last + 1) {
+        bool completes = k == 4 && sm.last == 3;
+        sm.last = k;
+        if (completes && ap_known) sm.expect = g;
+    } else { sm.bad = true; model_taint(sm, g); }
+}
 
 static std::string canon_impl(const Crypto::WPA2Decrypter& d) {
     std::string o = "H";
@@ -651,24 +692,17 @@ static std::string canon_impl(const Crypto::WPA2Decrypter& d) {
 }
 static std::string canon_model(const HsModel& m) {
     std::string o;
-    for (int k = 0; k < 2; ++k) o += str(m.st[k].last) + (m.st[k].bad ? "B" : "-") + (m.st[k].expect ? "E" : "-");
+    for (int k = 0; k < 2; ++k) o += str(m.st[k].run_gen) + str(m.st[k].last) + (m.st[k].bad ? "B" : "-") + "E" + str(m.st[k].expect);
     return o + (m.ap_known ? "A" : "-");
 }
 
+static std::map<std::string, std::string> g_probe_cache;   // canonical implementation state -> probe outcome codes
 static std::string hs_step(HS& s, const int& ev) {
     HsWorld& w = *W;
     // ---- model
     int k = w.ev_station[ev], msg = w.ev_msg[ev];
-    if (msg >= 1 && msg <= 4) {
-        StaModel& sm = s.m.st[k];
-        if (!sm.bad) {
-            if (msg == sm.last || msg == sm.last + 1) {
-                bool completes = msg == 4 && sm.last == 3;
-                sm.last = msg;
-                if (completes && s.m.ap_known) sm.expect = true;
-            } else sm.bad = true;
-        }
-    } else if (msg == 5 && w.cfg.apreg == 0) s.m.ap_known = true;
+    if (msg >= 1 && msg <= 4) model_message(s.m.st[k], w.ev_gen[ev], msg, s.m.ap_known);
+    else if (msg == 5 && w.cfg.apreg == 0) s.m.ap_known = true;
     // ---- implementation
     g_cb_hs = g_cb_ap = 0;
     Out o = run_decrypt(s.d, w.frames[ev], msg == 7 ? &w.st[k].plain : 0);
@@ -677,45 +711,72 @@ static std::string hs_step(HS& s, const int& ev) {
     if (msg != 7 && o.ret == 1) return "handshake:unprotected-frame-reported-decrypted|" + w.names[ev];
     if (g_cb_hs) R.count("callback_handshake_captured", g_cb_hs);
     if (g_cb_ap) R.count("callback_ap_found", g_cb_ap);
-    // ---- invariants, checked in every state on both stations' frames (both directions) and a frame under a foreign key
+    // ---- invariants, judged after every transition on every station's frames (each generation, both directions) and a frame
+    // under a foreign key.  Decrypting a data frame does not change the decrypter, so the probe outcomes are a function of the
+    // implementation state: they are computed once per distinct canonical implementation state and looked up afterwards
+    // (the same equivalence the state merging relies on; the verdict below depends on the model state and is evaluated every time).
+    std::string ck = canon_impl(s.d);
+    std::map<std::string, std::string>::iterator hit = g_probe_cache.find(ck);
+    if (hit == g_probe_cache.end()) {
+        std::string codes;
+        for (size_t pi = 0; pi < w.probes.size(); ++pi) {
+            const Probe& pr = w.probes[pi];
+            Out p = run_decrypt(s.d, pr.frame, &w.st[pr.sta].plain);
+            R.count("probe_decrypt_calls");
+            bool same = p.snap && p.rec == w.st[pr.sta].plain;
+            codes += char('0' + p.ret + (p.prot ? 4 : 0) + (same ? 8 : 0));
+        }
+        hit = g_probe_cache.insert(std::make_pair(ck, codes)).first;
+    }
     std::string obs;
     for (size_t pi = 0; pi < w.probes.size(); ++pi) {
-        int sta = pi == 4 ? 0 : (int)(pi & 1);
-        Out p = run_decrypt(s.d, w.probes[pi], &w.st[sta].plain);
-        R.count("probe_decrypt_calls");
-        obs += str(p.ret);
-        if (p.ret == 3) return "harness:probe-did-not-parse|";
-        if (pi == 4) {
-            if (p.ret == 1) return "handshake:frame-under-foreign-key-reported-decrypted|";
+        const Probe& pr = w.probes[pi];
+        int code = hit->second[pi] - '0', ret = code & 3;
+        bool prot = (code & 4) != 0, same = (code & 8) != 0;
+        R.count("probe_verdicts");
+        obs += str(ret);
+        if (ret == 3) return "harness:probe-did-not-parse|";
+        if (pr.gen == 0) {
+            if (ret == 1) return "handshake:frame-under-foreign-key-reported-decrypted|";
             continue;
         }
-        if (p.ret == 1) {
-            if (p.prot || !p.snap || p.rec != w.st[sta].plain)
-                return "handshake:decrypted-output-differs-from-plaintext|station " + str(sta) + " got " + hex(p.rec) + " want " + hex(w.st[sta].plain);
+        if (ret == 1) {
+            if (prot || !same) return "handshake:decrypted-output-differs-from-plaintext|station " + str(pr.sta) + " generation " + str(pr.gen);
             R.count("probe_decrypted_ok");
-        } else if (p.prot == false) return "handshake:not-decrypted-but-protected-flag-cleared|";
-        if (s.m.st[sta].expect && p.ret != 1)
-            return "handshake:valid-history-data-not-decrypted|station " + str(sta) + (pi >= 2 ? " from-DS" : " to-DS") + " ret=" + str(p.ret) + " " + p.exc + " model=" + canon_model(s.m) + " impl=" + canon_impl(s.d);
+        } else if (!prot) return "handshake:not-decrypted-but-protected-flag-cleared|";
+        if (s.m.st[pr.sta].expect == pr.gen && ret != 1)
+            return std::string("handshake:") + (pr.gen == 2 ? "frame-under-latest-handshake-keys-not-decrypted" : "valid-history-data-not-decrypted") + "|station " +
+                   str(pr.sta) + " generation " + str(pr.gen) + (pr.from_ds ? " from-DS" : " to-DS") + " ret=" + str(ret) + " model=" + canon_model(s.m) + " impl=" + ck;
     }
-    for (int t = 0; t < 2; ++t)
-        if (s.m.st[t].expect) {
+    for (int t = 0; t < 2; ++t) {
+        int e = s.m.st[t].expect;
+        if (e == 1 || e == 2) {
             const Crypto::WPA2Decrypter::keys_map& km = s.d.get_keys();
             HWAddress<6> a = hw(w.st[t].mac), b = hw(w.bssid);
             Crypto::WPA2Decrypter::keys_map::const_iterator it = km.find(a < b ? std::make_pair(a, b) : std::make_pair(b, a));
             if (it == km.end()) return "handshake:valid-history-no-keys|station " + str(t);
             size_t n = w.cfg.ccmp ? 48 : 64;
-            if (it->second.get_ptk().size() < n || !std::equal(w.st[t].ptk.begin(), w.st[t].ptk.begin() + n, it->second.get_ptk().begin()))
-                return "handshake:stored-ptk-differs-from-reference|station " + str(t);
+            const Bytes& ref = w.st[t].ptk[e - 1];
+            if (it->second.get_ptk().size() < n || !std::equal(ref.begin(), ref.begin() + n, it->second.get_ptk().begin()))
+                return "handshake:stored-ptk-differs-from-reference|station " + str(t) + " generation " + str(e);
             if (it->second.uses_ccmp() != w.cfg.ccmp) return "handshake:stored-cipher-differs|station " + str(t);
+            R.count("states_with_keys_required");
         }
+    }
     s.obs = obs + (s.d.get_keys().empty() ? "k" : "K") + str(s.d.get_keys().size());
     return "";
 }
 
 static std::vector<HsCfg> hs_configs(bool thorough) {
     std::vector<HsCfg> v;
-    for (int ccmp = 1; ccmp >= 0; --ccmp) for (int apreg = 0; apreg < 2; ++apreg) for (int qos = 0; qos < 2; ++qos) for (int order = 0; order < 2; ++order)
-        v.push_back(HsCfg{ccmp != 0, apreg, qos != 0, order, thorough});
+    for (int ccmp = 1; ccmp >= 0; --ccmp) for (int apreg = 0; apreg < 2; ++apreg) for (int qos = 0; qos < 2; ++qos) for (int order = 0; order < 2; ++order) {
+        // quick: second generation for station A only; thorough: two runs per base configuration
+        if (!thorough) v.push_back(HsCfg{ccmp != 0, apreg, qos != 0, order, 1, false, false});
+        else {
+            v.push_back(HsCfg{ccmp != 0, apreg, qos != 0, order, 1, true, true});     // A: 2 generations; B: retransmissions; extra beacons
+            v.push_back(HsCfg{ccmp != 0, apreg, qos != 0, order, 3, false, false});   // both stations: 2 generations
+        }
+    }
     return v;
 }
 
@@ -724,13 +785,14 @@ static void run_hs(int index, const std::string* rp = 0, std::string* rerr = 0) 
     if (index >= (int)cfgs.size()) return;
     delete W;
     W = make_world(cfgs[index]);
+    g_probe_cache.clear();
     Explorer<HS, int> ex;
     for (size_t i = 0; i < W->frames.size(); ++i) ex.alphabet.push_back((int)i);
     ex.context = "mode=hs tier=" + A.tier + " cfg=" + str(index);
     ex.op_str = [](const int& e) { return W->names[e]; };
     ex.init = []() {
         HS s{W->base, HsModel(), ""};
-        for (int k = 0; k < 2; ++k) { s.m.st[k].last = 0; s.m.st[k].bad = s.m.st[k].expect = false; }
+        for (int k = 0; k < 2; ++k) { s.m.st[k].run_gen = s.m.st[k].last = s.m.st[k].expect = 0; s.m.st[k].bad = false; }
         s.m.ap_known = W->cfg.apreg == 1;
         return s;
     };
@@ -753,8 +815,7 @@ static void run_hs(int index, const std::string* rp = 0, std::string* rerr = 0) 
 int main(int argc, char** argv) {
     std::string st = c09::selftest();
     if (!st.empty()) { fprintf(stderr, "reference self-test failed: %s\n", st.c_str()); return 2; }
-    int nh = 16;
-    return run_main(argc, argv, NF + nh, NF + nh,
+    return run_main(argc, argv, NF + 16, NF + 32,
         [](int job) {
             if (job < NF) run_frames_job(job);
             else run_hs(job - NF);
